@@ -203,6 +203,15 @@ def rsLenUtf8 (c : Nat) : Nat := if c < 128 then 1 else if c < 2048 then 2 else 
 /-- `char::len_utf16` -/
 def rsLenUtf16 (c : Nat) : Nat := if c < 65536 then 1 else 2
 
+/-- `char::is_ascii_alphabetic`, `char::is_ascii_alphanumeric` on a code point -/
+def rsIsAsciiAlphabetic (c : Nat) : Bool := (65 ≤ c && c ≤ 90) || (97 ≤ c && c ≤ 122)
+def rsIsAsciiAlphanumeric (c : Nat) : Bool := rsIsAsciiAlphabetic c || (48 ≤ c && c ≤ 57)
+
+/-- `s.char_indices()`: every character with the byte offset it starts at -/
+def rsCharIndicesFrom : Nat → List Nat → List (Nat × Nat)
+  | _, [] => []
+  | off, c :: cs => (off, c) :: rsCharIndicesFrom (off + (if c < 128 then 1 else if c < 2048 then 2 else if c < 65536 then 3 else 4)) cs
+
 /-- `s.is_char_boundary(i)`: the start, the end, or a byte that is not a continuation byte -/
 def rsIsCharBoundary (s : List Nat) (i : Nat) : Bool :=
   i == 0 || i == s.length || (match s[i]? with | some b => b < 128 || 192 ≤ b | none => false)
@@ -210,6 +219,25 @@ def rsIsCharBoundary (s : List Nat) (i : Nat) : Bool :=
 /-- `s.get(a..b)` -/
 def rsStrGet (s : List Nat) (a b : Nat) : Option (List Nat) :=
   if a ≤ b ∧ b ≤ s.length ∧ rsIsCharBoundary s a ∧ rsIsCharBoundary s b then some ((s.drop a).take (b - a)) else none
+
+def rsCharIndices (s : List Nat) : List (Nat × Nat) := rsCharIndicesFrom 0 (rsChars s)
+
+/-- `&s[a..b]` on a `str`: panics unless `a ≤ b ≤ len` and both are character boundaries -/
+def rsStrSlice (s : List Nat) (a b : Nat) : Res (List Nat) :=
+  match rsStrGet s a b with
+  | some r => .ok r
+  | none => .error .panic
+
+/-- `s.split_whitespace()`: maximal runs of non-whitespace characters (`char::is_whitespace`, via `rsWsLen`) -/
+def rsSplitWsFuel : Nat → List Nat → List Nat → List (List Nat)
+  | 0, cur, _ => if cur.isEmpty then [] else [cur.reverse]
+  | _ + 1, cur, [] => if cur.isEmpty then [] else [cur.reverse]
+  | n + 1, cur, b :: r =>
+    let w := rsWsLen (b :: r)
+    if w = 0 then rsSplitWsFuel n (b :: cur) r
+    else (if cur.isEmpty then [] else [cur.reverse]) ++ rsSplitWsFuel n [] ((b :: r).drop w)
+
+def rsSplitWhitespace (s : List Nat) : List (List Nat) := rsSplitWsFuel (s.length + 1) [] s
 
 /-- little-endian value of a byte list -/
 def rsLe : List Nat → Nat
